@@ -364,7 +364,7 @@ BLOCKS = [
      '<xsl:for-each select="/*/node() | /*/*/node()"><xsl:value-of select="position()"/>/<xsl:value-of select="last()"/>;</xsl:for-each>|'
      '<xsl:apply-templates select="//node()" mode="pl"/>|<xsl:for-each select="//*"><xsl:apply-templates mode="pl"/>!</xsl:for-each>'),
     ("strings", "",
-     '<xsl:value-of select="%s"/>|<xsl:for-each select="//*"><xsl:value-of select="%s"/>~<xsl:value-of select="normalize-space(.)"/>~<xsl:value-of select="string-length(.)"/>;</xsl:for-each>|'
+     '<xsl:value-of select="%s"/>|<xsl:for-each select="//*"><xsl:value-of select="%s"/>~<xsl:value-of select="normalize-space(.)"/>~<xsl:value-of select="string-length(.)"/>~<xsl:value-of select="normalize-space()"/>~<xsl:value-of select="."/>;</xsl:for-each>|'
      '<xsl:value-of select="count(//*[.=\'\'])"/>/<xsl:value-of select="count(//*[contains(.,\' \')])"/>/<xsl:value-of select="count(//*[starts-with(., \' \')])"/>/'
      '<xsl:value-of select="count(//*[string-length() = %d])"/>/<xsl:value-of select="boolean(string(/*/*[1]))"/>|[<xsl:value-of select="/*"/>]<xsl:value-of select="concat(\'[\', /*/*[1], \']\')"/>'
      '|<xsl:value-of select="count(//*[. = //*[1]])"/>|<xsl:value-of select="count(//*[normalize-space() = \'\'])"/>|<xsl:value-of select="sum(//*[number(.) = number(.)])"/>'
